@@ -212,6 +212,32 @@ type tr struct {
 	results []string // named results or synthetic
 	outs    []string // slice params whose final value is returned too
 	calls   map[string]string
+	// loops (see forStmt): variables in scope with their Coq types, the
+	// continuation that replaces "fall off the end of the block" inside a loop
+	// body, the auxiliary Fixpoints emitted so far and the result type.
+	scope   []scopeVar
+	fallOff func() string
+	aux     []string
+	nloops  int
+	rtype   string
+}
+
+type scopeVar struct{ name, ty string }
+
+func (t *tr) declare(name string, ty types.Type) {
+	if name == "_" {
+		return
+	}
+	ct := coqType(ty)
+	if ct == "" {
+		ct = "Z"
+	}
+	for _, v := range t.scope {
+		if v.name == name {
+			return
+		}
+	}
+	t.scope = append(t.scope, scopeVar{name, ct})
 }
 
 func (t *tr) fail(n ast.Node, format string, a ...interface{}) {
@@ -401,6 +427,10 @@ func guard(idx []string, k string) string {
 func (t *tr) stmts(list []ast.Stmt, rest []ast.Stmt) string {
 	if len(list) == 0 {
 		if len(rest) == 0 {
+			if t.fallOff != nil {
+				// end of a loop body: post statement and next iteration
+				return t.fallOff()
+			}
 			// fell off the end: return named results
 			return t.ret(nil, nil)
 		}
@@ -424,6 +454,9 @@ func (t *tr) stmts(list []ast.Stmt, rest []ast.Stmt) string {
 			}
 			name := "v_" + lhs.Name
 			val := rhs
+			if s.Tok == token.DEFINE {
+				t.declare(lhs.Name, t.typeOf(s.Rhs[0]))
+			}
 			if s.Tok != token.ASSIGN && s.Tok != token.DEFINE {
 				ty := t.p.info.Types[s.Lhs[0]].Type
 				if ty == nil {
@@ -490,6 +523,7 @@ func (t *tr) stmts(list []ast.Stmt, rest []ast.Stmt) string {
 					val = "false"
 				}
 				out += "let v_" + n.Name + " := " + val + " in\n"
+				t.declare(n.Name, t.p.info.Defs[n].Type())
 			}
 		}
 		return guard(idx, out+cont())
@@ -557,11 +591,90 @@ func (t *tr) stmts(list []ast.Stmt, rest []ast.Stmt) string {
 		return guard(idx, out)
 	case *ast.BlockStmt:
 		return t.stmts(append(append([]ast.Stmt{}, s.List...), tail...), rest)
+	case *ast.ForStmt:
+		return t.forStmt(s, tail, rest)
 	case *ast.ExprStmt:
 		t.fail(s, "expression statement")
 	}
 	t.fail(s, "statement %T", s)
 	return ""
+}
+
+// forStmt translates
+//
+//	for init; cond; post { body }   followed by the statements `after`
+//
+// into an auxiliary structurally recursive function on a fuel argument whose
+// other arguments are all variables in scope at the loop (so whatever the body
+// or the post statement assigns is carried to the next iteration):
+//
+//	Fixpoint f_loopK (fuel : nat) (vars) : outcome R :=
+//	  match fuel with
+//	  | O => Stuck                              (fuel exhausted: never a normal-looking value)
+//	  | S fuel => if cond then body; post; f_loopK fuel vars
+//	              else after
+//	  end.
+//
+// A `return` in the body returns from the Go function, which is what it does
+// here too since the loop function computes the function's result. The
+// statements after the loop are part of the loop function (its else arm).
+// break, continue, goto, labelled and nested loops are outside the subset.
+func (t *tr) forStmt(s *ast.ForStmt, tail, rest []ast.Stmt) string {
+	if t.fallOff != nil {
+		t.fail(s, "nested loop")
+	}
+	ast.Inspect(s.Body, func(n ast.Node) bool {
+		switch n.(type) {
+		case *ast.BranchStmt, *ast.ForStmt, *ast.RangeStmt, *ast.LabeledStmt, *ast.FuncLit:
+			t.fail(n, "statement %T in a loop body", n)
+		}
+		return true
+	})
+	t.nloops++
+	fname := fmt.Sprintf("%s_%s_loop%d", t.prefix, t.fn.Name.Name, t.nloops)
+	// init runs once, in the caller; it may declare the loop variable
+	initStr := ""
+	if s.Init != nil {
+		marker := "\x00CONT\x00"
+		save := t.fallOff
+		t.fallOff = func() string { return marker }
+		initStr = t.stmts([]ast.Stmt{s.Init}, nil)
+		t.fallOff = save
+		if !strings.HasSuffix(initStr, marker) {
+			t.fail(s.Init, "loop init statement")
+		}
+		initStr = strings.TrimSuffix(initStr, marker)
+	}
+	vars := append([]scopeVar{}, t.scope...)
+	var params, args []string
+	for _, v := range vars {
+		params = append(params, fmt.Sprintf("(v_%s : %s)", v.name, v.ty))
+		args = append(args, "v_"+v.name)
+	}
+	call := fname + " fuel " + strings.Join(args, " ")
+	cond := "true"
+	var idx []string
+	if s.Cond != nil {
+		cond = t.expr(s.Cond, &idx)
+	}
+	// body, then post, then the next iteration
+	t.fallOff = func() string {
+		t.fallOff = func() string { return call }
+		defer func() { t.fallOff = nil }()
+		if s.Post == nil {
+			return call
+		}
+		return t.stmts([]ast.Stmt{s.Post}, nil)
+	}
+	nscope := len(t.scope)
+	body := t.stmts(s.Body.List, nil)
+	t.scope = t.scope[:nscope]
+	t.fallOff = nil
+	after := t.stmts(tail, rest)
+	t.aux = append(t.aux, fmt.Sprintf("Fixpoint %s (fuel : nat) %s : outcome (%s) :=\nmatch fuel with\n| O => Stuck\n| S fuel =>\n%s\nend.\n",
+		fname, strings.Join(params, " "), t.rtype,
+		guard(idx, "if "+cond+" then (\n"+body+") else (\n"+after+")")))
+	return initStr + fname + " v_fuel " + strings.Join(args, " ")
 }
 
 func (t *tr) ret(results []ast.Expr, n ast.Node) string {
@@ -616,6 +729,7 @@ func (p *pkgInfo) emitFunc(w *bytes.Buffer, prefix, recv, name string, outs []st
 		}
 		for _, n := range f.Names {
 			params = append(params, fmt.Sprintf("(v_%s : %s)", n.Name, ct))
+			t.declare(n.Name, ty)
 		}
 	}
 	var rtypes []string
@@ -633,6 +747,7 @@ func (p *pkgInfo) emitFunc(w *bytes.Buffer, prefix, recv, name string, outs []st
 			for _, n := range f.Names {
 				rtypes = append(rtypes, ct)
 				t.results = append(t.results, n.Name)
+				t.declare(n.Name, ty)
 				zero := "0"
 				if ct == "bool" {
 					zero = "false"
@@ -649,9 +764,17 @@ func (p *pkgInfo) emitFunc(w *bytes.Buffer, prefix, recv, name string, outs []st
 	if len(rtypes) == 0 {
 		rtypes = []string{"unit"}
 	}
+	t.rtype = strings.Join(rtypes, " * ")
 	body := pre + t.stmts(fd.Body.List, nil)
 	fmt.Fprintf(w, "\n(* %s: func %s *)\n", p.fset.Position(fd.Pos()), name)
-	fmt.Fprintf(w, "Definition %s_%s %s : outcome (%s) :=\n%s.\n", prefix, name, strings.Join(params, " "), strings.Join(rtypes, " * "), body)
+	for _, a := range t.aux {
+		w.WriteString(a)
+	}
+	if t.nloops > 0 {
+		// the caller supplies the fuel; theorems state which fuel suffices
+		params = append([]string{"(v_fuel : nat)"}, params...)
+	}
+	fmt.Fprintf(w, "Definition %s_%s %s : outcome (%s) :=\n%s.\n", prefix, name, strings.Join(params, " "), t.rtype, body)
 }
 
 func main() {
